@@ -249,7 +249,7 @@ theorem parse_lexonly (h : OpsLex env.ops inp J) (last : Bool) (p : Parser κ) (
   obtain ⟨hd, hfd, hJ, hi⟩ := hp
   have hm : p.machine last = ⟨{ p.lexC with isLast := last }, .lexer p.lexR, p.x⟩ := by
     unfold Parser.machine; rw [hd]
-  have hl : LInv J (p.machine last) := by rw [hm]; exact ⟨hJ, hi, _, rfl, hfd⟩
+  have hl : LxInv J (p.machine last) := by rw [hm]; exact ⟨hJ, hi, _, rfl, hfd⟩
   obtain ⟨⟨r1, r2, l, r3, r4⟩, rs⟩ := runLoop_lexonly h (defaultFuel inp) (p.machine last) hl
   have hst : p.store (runLoop env inp (defaultFuel inp) (p.machine last)).1 =
       { p with lexC := (runLoop env inp (defaultFuel inp) (p.machine last)).1.c, lexR := l,
